@@ -14,7 +14,8 @@ EVIDENCE = dict(
          "arriving at the target is recorded in run-length form (plus whether any other controller of the target "
          "changed); links whose mapping names no controller are fed too. Trace_RVMultiCtl checks outcome, range and "
          "monotonicity. Windows of compact-range targets are expressed in target steps (0..span), as the library's own "
-         "macro helper and tests do. non-trivial = a feed that delivers more than one distinct value, or a refusal.",
+         "macro helper and tests do (wider windows: only the range clause). Fan-outs are also fed after the project went "
+         "through a file, with targets that have other inputs, and after an unrelated failed load. non-trivial = a feed that delivers more than one distinct value, or a refusal.",
     explanation="value axis enumerated completely for each sampled parameter tuple")
 
 GAINS = [0, 1, 100, 255, 256, 257, 333, 512, 1024]
@@ -22,12 +23,18 @@ QUANTS = [0, 1, 2, 3, 7, 100, 32767, 32768]
 
 
 def _feed(args):
-    (t, cname, gain, quant, wmin, wmax, curve, unmapped, seed) = args
+    (t, cname, gain, quant, wmin, wmax, curve, unmapped, seed, wide) = args
     from ..common import setup_repo_path
     setup_repo_path()
+    import io
     import rv.api as api
     import rv.modules
     cls = rv.modules.MODULE_CLASSES[t]
+    if seed % 3 == 0:          # an unrelated load failed earlier in this process
+        try:
+            api.read_sunvox_file(io.BytesIO(b"SVOX\0\0\0\0SFFF\4\0\0\0\1\0\0\0STYP\3\0\0\0Zz\0"))
+        except Exception:
+            pass
     p = api.Project()
     target = p.new_module(cls)
     mc = p.new_module(api.m.MultiCtl)
@@ -50,7 +57,8 @@ def _feed(args):
             mc.value = v
         except Exception as e:
             outcome, bad = "exception:" + type(e).__name__, v
-            break
+            if not wide:
+                break
         d = val(getattr(target, cname))
         if rle and rle[-1][0] == d:
             rle[-1][1] += 1
@@ -60,18 +68,25 @@ def _feed(args):
     vt = ctl.value_type
     return {"op": "feed", "t": t, "ctl": cname, "lo": vt.min, "hi": vt.max, "gain": gain, "quant": quant, "wmin": wmin, "wmax": wmax,
             "curve": "default" if curve is None else "custom", "unmapped": unmapped, "initial": initial, "rle": rle,
-            "outcome": outcome, "bad_input": bad, "others_unchanged": bool(others)}
+            "outcome": outcome, "bad_input": bad, "others_unchanged": bool(others), "wide": bool(wide)}
 
 
 def _feed_multi(args):
     """One MultiCtl fanning out to several targets, some links unmapped (also BEFORE mapped ones)."""
-    (targets, gain, quant, seed) = args       # targets: [(type, ctl name, wmin, wmax, unmapped)]
+    (targets, gain, quant, seed, reload) = args       # targets: [(type, ctl name, wmin, wmax, unmapped)]
     from ..common import setup_repo_path
     setup_repo_path()
+    import io
+    import random
     import rv.api as api
     import rv.modules
+    rnd = random.Random(seed)
     p = api.Project()
     mods = [p.new_module(rv.modules.MODULE_CLASSES[t]) for t, _, _, _, _ in targets]
+    src = p.new_module(api.m.Generator)
+    for i, m in enumerate(mods):        # some targets already have another input: the MultiCtl's link lands in a later in-slot
+        if (seed % 4 == 1 and i == len(mods) - 1) or (seed % 4 != 1 and rnd.random() < 0.4):     # (seed % 4 == 1: the last target only)
+            src >> m
     mc = p.new_module(api.m.MultiCtl)
     mc >> mods
     mc.gain, mc.quantization = gain, quant
@@ -79,6 +94,10 @@ def _feed_multi(args):
         mp_ = mc.mappings.values[i]
         mp_.min, mp_.max = wmin, wmax
         mp_.controller = 0 if unmapped else type(mods[i]).controllers[cname].number
+    if reload:                          # the fan-out must be the same after the project went through a file
+        p = api.read_sunvox_file(io.BytesIO(p.read()))
+        mods = [p.modules[m.index] for m in mods]
+        mc = p.modules[mc.index]
     before = [{n: val(getattr(m, n)) for n in type(m).controllers} for m in mods]
     rles = [[] for _ in mods]
     outcome, bad = "ok", -1
@@ -100,7 +119,8 @@ def _feed_multi(args):
         others = all(val(getattr(mods[i], n)) == before[i][n] for n in before[i] if n != cname)
         out.append({"op": "feed", "t": t, "ctl": cname, "lo": vt.min, "hi": vt.max, "gain": gain, "quant": quant, "wmin": wmin, "wmax": wmax,
                     "curve": "default", "unmapped": unmapped, "initial": before[i][cname], "rle": rles[i], "outcome": outcome, "bad_input": bad,
-                    "others_unchanged": bool(others), "fanout": "%d targets, link %d" % (len(targets), i)})
+                    "others_unchanged": bool(others), "wide": False,
+                    "fanout": "%d targets, link %d%s" % (len(targets), i, ", reloaded" if reload else "")})
     return out
 
 
@@ -221,20 +241,30 @@ def run(ctx):
         gain = rnd.choice(GAINS) if rnd.random() < 0.7 else rnd.randrange(1025)
         quant = rnd.choice(QUANTS) if rnd.random() < 0.7 else rnd.randrange(32769)
         wmin, wmax = window_for(c)
-        jobs.append((t, name, gain, quant, wmin, wmax, curve(), k % 10 == 9, ctx.seed + k))
+        jobs.append((t, name, gain, quant, wmin, wmax, curve(), k % 10 == 9, ctx.seed + k, False))
+    # compact-range targets under windows wider than their span (outside the helper's domain: only the range clause is
+    # judged - the library may refuse a delivery, it must never store a value outside the declared range)
+    compact = [x for x in ranged if x[2]["kind"] == "compact"]
+    for k in range(6 if q else 60):
+        t, name, c = compact[k % len(compact)]
+        wmin, wmax = rnd.choice([(0, 32768), (32768, 0), (0, 2 * (c["max"] - c["min"])), (1000, 300)])
+        jobs.append((t, name, rnd.choice([256, 256, 1024, 100]), rnd.choice([32768, 0, 7]), wmin, wmax, None, False, ctx.seed + k, True))
     # fan-out to 2-4 targets (distinct modules), with unmapped links at any position
     mjobs = []
     plain = [x for x in ranged if x[2]["kind"] == "range"]
-    for k in range(10 if q else 300):
+    for k in range(12 if q else 300):
         tg = []
-        for j in range(rnd.randrange(2, 5)):
+        for j in range(rnd.randrange(2, 5) if (ctx.seed + k) % 4 != 1 else rnd.randrange(3, 6)):
             t, name, c = rnd.choice(plain)
             wmin, wmax = rnd.choice(corners) if rnd.random() < 0.6 else (rnd.randrange(32769), rnd.randrange(32769))
             tg.append((t, name, wmin, wmax, rnd.random() < 0.4))
         if k % 2 == 0:
             tg[0] = tg[0][:4] + (True,)          # an unmapped link BEFORE mapped ones
             tg[-1] = tg[-1][:4] + (False,)
-        mjobs.append((tg, rnd.choice(GAINS), rnd.choice(QUANTS), ctx.seed + k))
+        if (ctx.seed + k) % 4 == 1:
+            tg[1] = tg[1][:4] + (False,)         # (the targets behind the first are mapped in the last-target-only layout)
+            tg[-1] = tg[-1][:4] + (False,)
+        mjobs.append((tg, rnd.choice(GAINS), rnd.choice(QUANTS), ctx.seed + k, k % 2 == 1))
     with mp.get_context("fork").Pool(16) as pool:
         feeds = pool.map(_feed, jobs, chunksize=1)
         for fl in pool.map(_feed_multi, mjobs, chunksize=1):
